@@ -97,5 +97,6 @@ theorem applyAct_objs_untouched (a : Act) (n : Nat) (h : touches a n = false) (x
   | vins r => rfl
   | vdel r => rfl
   | vupd a b => rfl
+  | read => rfl
 
 end Spec.Online
